@@ -6,7 +6,7 @@ HERE = os.path.dirname(os.path.dirname(os.path.abspath(__file__)))
 CHECKS = {
  "C01": dict(
    level="exploration",
-   text="Invariant at quiescent points: after every step of seeded histories of public operations (45 operation kinds incl. failing forms, nested contexts, copy/deepcopy/pickle/merge, glpk<->glpk_exact) the raw GLPK problem is read back with swiglpk and compared with the FBA problem implied by the Python-side data plus a ledger of explicit user additions; sparse histories (observed only at the end) cover optlang's lazy update queue; native aborts are attributed to the running operation through a journal.",
+   text="Invariant at quiescent points: after every step of seeded histories of public operations (50 operation kinds incl. failing forms - also identifiers the solver refuses or already uses -, merges with untidy right-hand models, nested contexts, copy/deepcopy/pickle/merge, glpk<->glpk_exact) the raw GLPK problem is read back with swiglpk and compared with the FBA problem implied by the Python-side data plus a ledger of explicit user additions; sparse histories (observed only at the end) cover optlang's lazy update queue; native aborts are attributed to the running operation through a journal.",
    note="Trusted: the observer (swiglpk read-back) and the S2 comparison; columns/rows matched through public accessors; tolerance 1e-12 relative; +-DBL_MAX treated as infinite. Sampled histories, not exhaustive.",
    technique="runtime invariant monitor over seeded operation histories (raw solver read-back)",
    ref="DESIGN.md §4 C01"),
@@ -18,20 +18,20 @@ CHECKS = {
    ref="DESIGN.md §4 C02"),
  "C03": dict(
    level="fault_enumeration",
-   text="Invariant at a hook: Model.__enter__/__exit__ are wrapped; a whole-state snapshot (content by id, cross references, raw GLPK problem) taken at every __enter__ is compared with the state after the matching __exit__, for blocks of documented-reversible operations in 1-3 nested contexts that end normally, by an exception between operations, or by an operation raising by itself. Failing blocks are minimised to the triggering operation.",
+   text="Invariant at a hook: Model.__enter__/__exit__ are wrapped; a whole-state snapshot (content by id, cross references, raw GLPK problem) taken at every __enter__ is compared with the state after the matching __exit__, for blocks of documented-reversible operations in 1-3 nested contexts that end normally, by an exception between operations, or by an operation raising by itself; the snapshot includes the solver objective's name (constraints are keyed on it). Failing blocks are minimised to the triggering operation.",
    note="Trusted: snapshot/diff code; list order ignored as the property allows; floats compared to 1e-12 relative. Fault points: between operations and failing operations, not asynchronous interruption inside an operation.",
    technique="runtime invariant at context enter/exit hooks with fault workloads",
    ref="DESIGN.md §4 C03"),
  "C04": dict(
    level="exploration",
-   text="Runtime contracts (icontract ensure) on the real Model.optimize / Model.slim_optimize: on every call the FBA problem is rebuilt from Python-side data and solved by an exact rational simplex whose result is re-certified (primal/dual feasibility, Farkas vector, improving ray); status, value, primal feasibility, the dual certificate computed from the reported shadow prices, the reduced-cost identity, per-object accessors and snapshot semantics of Solution are judged. Bundled models are judged by the float duality certificate (no reference solver).",
+   text="Runtime contracts (icontract ensure) on the real Model.optimize / Model.slim_optimize: on every call the FBA problem is rebuilt from Python-side data and solved by an exact rational simplex whose result is re-certified (primal/dual feasibility, Farkas vector, improving ray); status, value, primal feasibility, the dual certificate computed from the reported shadow prices, the reduced-cost identity, per-object accessors and snapshot semantics of Solution are judged. Warm-start chains (6-16 edits of one solver object crossing optimal/infeasible/unbounded, a judged call after each) exercise stale bases. Bundled models are judged by the float duality certificate (no reference solver).",
    note="Trusted: ~60-line certificate checker in exactlp.certify, not the simplex. Tolerances 1e-6 relative on values, 10x model tolerance on feasibility; generated data are dyadic rationals so every verdict is far from thresholds.",
    technique="runtime contracts (icontract) + exact certified LP oracle",
    ref="DESIGN.md §4 C04"),
  "C05": dict(
    level="exploration",
-   text="Exact oracle monitor: every flux_variability_analysis call of the workload (subsets as objects/ids/single/reversed, fraction 1/0.9/0.5/0, pfba_factor, loopless, 1-3 processes) is compared with exact rational FVA; loopless ranges with the exact union over all thermodynamically feasible sign patterns of the internal-cycle reactions (energy-balance LP per pattern); implied facts (min<=max, optimal FBA flux inside, loopless inside plain, frame index) on every call incl. textbook.",
-   note="Trusted: exactlp certificates; exact null space by rational Gauss elimination. pfba_factor exact only for fraction 1; loopless exact only without forced loops and <= 6 cycle reactions; unbounded ranges skipped as out of domain.",
+   text="Exact oracle monitor: every flux_variability_analysis call of the workload (subsets as objects/ids/single/reversed, fraction 1/0.9/0.5/0, pfba_factor, loopless, 1-3 processes) is compared with exact rational FVA; loopless ranges with the exact union over all thermodynamically feasible sign patterns of the internal-cycle reactions (energy-balance LP per pattern); known-finding classifier for loopless FVA proves one of three structural mechanisms, everything else is fresh; implied facts (min<=max, optimal FBA flux inside, loopless inside plain, frame index) on every call incl. textbook.",
+   note="Trusted: exactlp certificates; exact null space by rational Gauss elimination. loopless exact only without forced loops and <= 6 cycle reactions; unbounded ranges skipped as out of domain.",
    technique="runtime oracle monitor (exact rational FVA / loopless enumeration)",
    ref="DESIGN.md §4 C05"),
  "C06": dict(
@@ -42,7 +42,7 @@ CHECKS = {
    ref="DESIGN.md §4 C06"),
  "C07": dict(
    level="exploration",
-   text="Independent oracle (truth table from the generator's own and/or tree) judged after every single knock-out: bounds of every reaction, gene.functional, reaction.functional and the solver's variable bounds; per generated model all gene subsets, all orders for subsets <= 4, four API forms, inside and outside a context (restore checked on exit).",
+   text="Independent oracle (truth table from the generator's own and/or tree) judged after every single knock-out: bounds of every reaction, gene.functional, reaction.functional and the solver's variable bounds; per generated model all gene subsets, all orders for subsets <= 4, four API forms plus mixed routes (every gene or chunk through its own form, genes flagged non-functional beforehand, a Model.copy between knock-outs), inside and outside a context (restore checked on exit).",
    note="Trusted: 10-line tree evaluator, raw GLPK read-back. Models with 1-6 genes; larger rule sets not covered.",
    technique="runtime oracle monitor over enumerated knock-out sequences",
    ref="DESIGN.md §4 C07"),
@@ -60,14 +60,14 @@ CHECKS = {
    ref="DESIGN.md §4 C09"),
  "C16": dict(
    level="exploration",
-   text="Oracle monitor on every sample frame from ACHR/OptGP (sample(), sampler objects, batch(); reaction and variable space; n 1-50, thinning 1-100, small nproj to force re-projection, processes 1-4): each row is checked against the model's own constraints (bounds, S v = 0, extra linear constraints) recomputed from the model content, validate() codes are compared with that verdict, seeds must reproduce, and the model must be unchanged by sampling.",
+   text="Oracle monitor on every sample frame from ACHR/OptGP (sample(), sampler objects, batch(); reaction and variable space; n 1-50, thinning 1-100, repeated draws on one sampler object, equalities with non-zero right-hand side, ranges far narrower than their magnitude, small nproj to force re-projection, processes 1-4): each row is checked against the model's own constraints (bounds, S v = 0, extra linear constraints) recomputed from the model content, validate() codes are compared with that verdict, seeds must reproduce, and the model must be unchanged by sampling.",
    note="Trusted: ~40 lines recomputing feasibility with numpy from model content. Tolerance = sampler feasibility_tol; violation above 2x tolerance. Finite bounds; sampler give-ups (RuntimeError) counted, not judged.",
    technique="runtime oracle monitor (feasibility recomputation per sampled row)",
    ref="DESIGN.md §4 C16"),
  "C17": dict(
    level="exploration",
    text="Oracle monitor: every loopless_solution result is judged against its start vector (internal FBA vertex captured by a tap, pFBA, or a harness-built optimal vector with extra loop flux): feasibility, same objective, same boundary fluxes, no reversal, no growth in magnitude, and irreducibility by an exact LP (largest conformal internal cycle still removable under those conditions). add_loopless + optimize is compared with the exact optimum over all loop-free distributions (union over thermodynamically feasible sign patterns) and the reported solution is checked for conformal internal cycles by a support LP.",
-   note="Trusted: exactlp, exact rational null space. add_loopless part: <= 6 cycle reactions, finite bounds, zero threshold max_bound x tolerance x 10.",
+   note="Trusted: exactlp, exact rational null space. add_loopless answers worse than the exact optimum are recorded as the known energy-cap finding only when re-solving exactly with |G_i| <= largest bound reproduces them. add_loopless part: <= 6 cycle reactions, finite bounds, zero threshold max_bound x tolerance x 10.",
    technique="runtime oracle monitor (exact cycle-removal LP, sign-pattern enumeration)",
    ref="DESIGN.md §4 C17"),
  "C18": dict(
@@ -84,7 +84,7 @@ CHECKS = {
    ref="DESIGN.md §4 C19"),
  "C10": dict(
    level="exploration",
-   text="Round-trip monitor with four oracles: (a) the SBML validator on every written document (no SBML_FATAL/ERROR/SCHEMA_ERROR, no COBRA_FATAL/ERROR); (b) the re-read model's description equals the original's under the documented equivalences (floats to 15 significant digits, rules by truth table, annotations as provider->identifiers) and the raw GLPK problems agree by name; (c) a second round trip changes nothing, exactly; (d) shipped SBML files are cross-checked by an independent stdlib-XML reader (stoichiometry, fbc bounds, active objective) against the cobra model, differences count only if cobrapy logged no warning naming the element. Generated models carry awkward ids, groups of reactions/metabolites/genes, notes, annotations, bounds of every class; channels path/handle/string; default f_replace and f_replace={}.",
+   text="Round-trip monitor with four oracles (also under default bounds changed at run time, and for third-party document shapes made from the written file - a species referenced twice by a reaction - cross-checked by the independent reader): (a) the SBML validator on every written document (no SBML_FATAL/ERROR/SCHEMA_ERROR, no COBRA_FATAL/ERROR); (b) the re-read model's description equals the original's under the documented equivalences (floats to 15 significant digits, rules by truth table, annotations as provider->identifiers) and the raw GLPK problems agree by name; (c) a second round trip changes nothing, exactly; (d) shipped SBML files are cross-checked by an independent stdlib-XML reader (stoichiometry, fbc bounds, active objective) against the cobra model, differences count only if cobrapy logged no warning naming the element. Generated models carry awkward ids, groups of reactions/metabolites/genes, notes, annotations, bounds of every class; channels path/handle/string; default f_replace and f_replace={}.",
    note="Trusted: ioequiv, the 60-line independent XML reader (fbc-v2 only), libsbml's validator as the judge of validity.",
    technique="runtime round-trip monitor + SBML validator + independent reader",
    ref="DESIGN.md §4 C10"),
@@ -96,19 +96,19 @@ CHECKS = {
    ref="DESIGN.md §4 C11"),
  "C12": dict(
    level="exploration",
-   text="Three monitors on every copy (Model.copy, copy.deepcopy, pickle; groups, notes, nested annotation lists, user constraints, 0-2 contexts open at copy time): whole-state equivalence of copy and original (content, cross references, raw GLPK problem, tolerance); object-identity disjointness of reactions, metabolites, genes, groups, rules, notes/annotation containers incl. nested lists, compartment dictionary, solver variables/constraints/objective; and a taint test - 10-step histories of catalogue operations plus in-place mutations of every mutable attribute on one side with the snapshot of the other side compared after every step, then roles swapped; leaving the original's contexts must not touch the copy. Reaction.copy, Metabolite.copy, + - *: operands unchanged, results detached, editing results does not reach the model.",
+   text="Three monitors on every copy (Model.copy, copy.deepcopy, pickle; groups, notes, nested annotation lists, user constraints, 0-2 contexts open at copy time): whole-state equivalence of copy and original (content, cross references, raw GLPK problem, tolerance); object-identity disjointness of reactions, metabolites, genes, groups, rules, notes/annotation containers incl. nested lists, compartment dictionary, solver variables/constraints/objective; and a taint test - values nested up to three levels deep, identifiers shared between kinds, knocked-out genes, 10-step histories of catalogue operations plus in-place mutations of every mutable attribute on one side with the snapshot of the other side compared after every step, then roles swapped; leaving the original's contexts must not touch the copy. Reaction.copy, Metabolite.copy, + - *: operands unchanged, results detached, editing results does not reach the model.",
    note="Trusted: snapshot/diff, id()-based sharing detector. Solver solution state not compared.",
    technique="runtime taint monitor (whole-state comparison of the untouched side after every step) + identity checker",
    ref="DESIGN.md §4 C12"),
  "C13": dict(
    level="fault_enumeration",
-   text="Whole-state comparison around every analysis call (content, bounds, objective and direction, gene states, raw GLPK problem incl. left-over rows/columns, solver configuration and interface) for 41 analyses/argument forms on feasible, infeasible, unbounded, degenerate, empty and objective-less generated models, serial and with 2 processes, outside or inside a user context (whose exit must then restore the entry state); each call is made twice and the uniquely defined quantities compared (ties at thresholds decided exactly); an OptimizeTap asserts the core FBA invariant of C01 at every solve the analyses make.",
+   text="Whole-state comparison around every analysis call (content, bounds, objective and direction, gene states, raw GLPK problem incl. left-over rows/columns, solver configuration and interface) for 43 analyses/argument forms (incl. models carrying a user's permanent fixed-objective constraint) on feasible, infeasible, unbounded, degenerate, empty and objective-less generated models, serial and with 2 processes, outside or inside a user context (whose exit must then restore the entry state); each call is made twice and the uniquely defined quantities compared (ties at thresholds decided exactly); an OptimizeTap asserts the core FBA invariant of C01 at every solve the analyses make.",
    note="Trusted: snapshot/diff. Big-M analyses (room, MIP minimal medium, gapfill) only on finite bounds (GLPK aborts on infinite coefficients); non-unique outputs not compared; production envelopes on infinite bounds not compared.",
    technique="runtime before/after whole-state monitor with failure-path workloads + solve-time invariant tap",
    ref="DESIGN.md §4 C13"),
  "C14": dict(
    level="exploration",
-   text="Event-log checker over process-pool schedules: multiprocessing Pool methods and the task functions are tapped (PoolTap/TaskTap) to log every task with worker pid, start/end and the worker model's state before/after; for FVA, find_blocked_reactions, find_essential_*, single/double deletions the frame produced under each schedule (processes 1-8 x permuted item order x chunk size x seeded 0-5 ms delays) is compared with the serial result and with each item requested alone; exactly-once per item, no carry-over between tasks in a worker and an unchanged parent model are judged from the log.",
+   text="Event-log checker over process-pool schedules: multiprocessing Pool methods and the task functions are tapped (PoolTap/TaskTap) to log every task with worker pid, start/end and the worker model's state before/after; for FVA, find_blocked_reactions, find_essential_*, single/double deletions (fba and linear MOMA with a fixed reference; MOMA growth that is not unique is recorded as a known finding only when both values lie in the exact admissible interval) the frame produced under each schedule (processes 1-8 x permuted item order x chunk size x seeded 0-5 ms delays) is compared with the serial result and with each item requested alone; exactly-once per item, no carry-over between tasks in a worker and an unchanged parent model are judged from the log.",
    note="Trusted: event log written in workers (append-only, one line per event), comparison 1e-6 relative. Orders sampled by perturbation, not enumerated; fork start method.",
    technique="offline event-log checker over tapped process-pool executions with injected delays",
    ref="DESIGN.md §4 C14"),
